@@ -313,7 +313,10 @@ for _t_ in TASKS:
 import C06_resend as _c06  # noqa: E402
 import shared_tasks as _st  # noqa: E402
 TASKS[-1:-1] = [_c06.refinement_task(ic.RESEND_NEEDS["C14"], ic.RESEND_INV["C14"])] + _st.encode_tasks() + \
-    _st.journal_tasks(ops=("persist_msg",), durability=False, direction="OUTBOUND")
+    _st.journal_tasks(ops=("persist_msg",), durability=False, direction="OUTBOUND") + \
+    _st.from_module("C02_wire_frames", ("send_msg[st=*",), "C02", keep=("send.refused_text",))
+# (the refusal of non-ASCII text, outside A-ASCII: it must not give back a number it did not take - otherwise the next
+#  sender collides with a number already used)
 
 PLAIN_SCENARIOS = ["three_senders", "senders_transport_fault", "sender_heartbeat", "sender_reader_testrequest",
                    "sender_reader_appmsg", "initial_logon_logout", "acceptor_logon_sender", "reader_gap_sender",
@@ -328,6 +331,9 @@ SCHED = Bounded(
     "exhaustive up to 16 (thorough: 40) decision points per run - on the unchanged tree every scenario is exhausted "
     "below that bound; wire order, journal rows and stored counter checked when all tasks have finished",
     known_inputs=lambda v: {"resend": "resend" in v.get("scenario", "")})
+# the scheduler part exercises the whole statement (wire order, journal, stored counter under every schedule of the
+# scenarios): it stands in when a refactored handler leaves the verifier's subset (level exploration, no proof claimed)
+SCHED.stands_in = True
 PROPERTY = Property(
     "C14", TASKS,
     assumptions=[
